@@ -138,6 +138,16 @@ through to the three-token stage (no rule matched, or the `LIKE (` / `COLLATE n_
 re-categorise a token and break out of the switch) -/
 inductive Two | done (s : Step) | next (f : FS)
 
+/-- `;` followed by the function `IF` (any case): reads `val[0]`, `val[1]` of the function token -/
+def isIfToken (a b : Token) : M Bool :=
+  if a.cat == 59 && b.cat == 102 then do
+    let v0 ← at' b.val 0
+    if v0 == 73 || v0 == 105 then do
+      let v1 ← at' b.val 1
+      pure (v1 == 70 || v1 == 102)
+    else pure false
+  else pure false
+
 /-- the two-token rules, in source order (`left + 1 < pos`) -/
 def foldTwo (f : FS) : M Two := do
   let left := f.left
@@ -157,13 +167,7 @@ def foldTwo (f : FS) : M Two := do
     let f := (← FS.dec { f with s := s } 1).folds 1
     return .done (.cont { f with left := if f.left > 0 then f.left - 1 else f.left })
   | none =>
-  let isIF ← (if a.cat == 59 && b.cat == 102 then do
-      let v0 ← at' b.val 0
-      if v0 == 73 || v0 == 105 then do
-        let v1 ← at' b.val 1
-        pure (v1 == 70 || v1 == 102)
-      else pure false
-    else pure false)
+  let isIF ← isIfToken a b
   if isIF then
     let s ← tvSet f.s (left + 1) { b with cat := 84 }
     return .done (.cont { f with s := s })
